@@ -1488,6 +1488,8 @@ def standardize_join_type(join_str):
     allowed = {"INNER", "LEFT", "RIGHT", "OUTER", "FULL", "CROSS"}
     if join_str not in allowed:
         raise KeyError(f"join type {join_str} not supported")
+    if join_str == "OUTER":
+        join_str = "FULL"  # OUTER is another spelling of FULL (OUTER JOIN alone is not SQL)
     return join_str
 
 
